@@ -26,6 +26,31 @@ fn main() {
         println!("MIRI-SUITE {} seed={seed} operations={done}", args[2]);
         return;
     }
+    if args.len() >= 3 && args[1] == "regtime" {
+        // tvh regtime <file>: how long does *registering* this libFuzzer input take (decoded like the C06 fuzz target,
+        // nothing rendered)? Prints `REGTIME ms=<n>`; used to tell a parser that hangs from a render that is merely long.
+        let data = std::fs::read(&args[2]).unwrap_or_default();
+        let Ok(s) = std::str::from_utf8(&data) else {
+            println!("REGTIME ms=0 not-utf8");
+            return;
+        };
+        let mut t = tera::Tera::default();
+        let (src, custom) = match s.as_bytes().first() {
+            Some(b'\x01') if s.len() > 13 && s.is_char_boundary(13) => (&s[13..], Some(&s[1..13])),
+            _ => (s, None),
+        };
+        if let Some(d) = custom {
+            let parts: Vec<String> = d.as_bytes().chunks(2).map(|c| String::from_utf8_lossy(c).to_string()).collect();
+            if parts.len() == 6 {
+                let _ = t.set_delimiters(tera::Delimiters { block_start: parts[0].clone().into(), block_end: parts[1].clone().into(), variable_start: parts[2].clone().into(), variable_end: parts[3].clone().into(), comment_start: parts[4].clone().into(), comment_end: parts[5].clone().into() });
+            }
+        }
+        let t0 = std::time::Instant::now();
+        let (a, b) = src.split_once('\x0c').unwrap_or((src, ""));
+        let _ = t.add_raw_templates(vec![("a.html", a), ("b.html", b)]);
+        println!("REGTIME ms={}", t0.elapsed().as_millis());
+        return;
+    }
     if args.len() < 3 || args[1] != "run" {
         usage();
     }
